@@ -786,7 +786,19 @@ def install(reg):
     SN["blob_id"] = lambda it, a, k: VStr(bh(it, joined(it, a[0]).t), True)
     SN["blob_id_bytes"] = lambda it, a, k: VStr(bh(it, a[0].t), True)
     SN["blob_bytes"] = lambda it, a, k: VStr(BHb_inv(a[0].t), True)
-    SN["joined"] = lambda it, a, k: joined(it, a[0])
+    def _joined_total(it, a, k):
+        # total in specifications: terms under a false guard may be ill-typed
+        x = a[0]
+        if isinstance(x, VOpaque) and x.cls == "Chunks":
+            return joined(it, x)
+        if isinstance(x, VRef) or isinstance(x, VList):
+            try:
+                return joined(it, x)
+            except Unsupported:
+                pass
+        return VStr(uf("ill_typed_join", STR, STR)(x.t) if isinstance(x, VStr) else S(""), True)
+
+    SN["joined"] = _joined_total
 
     class RepoFactory:
         @staticmethod
